@@ -1040,7 +1040,7 @@ pub fn prop() -> Prop {
         id: "C16",
         meta: Meta {
             level: "fault_enumeration",
-            rule: "S6: seeded short sessions (1-3 operations) of a v4/v5 client with or without a will (QoS 0-2, retained or not, MQTT 5 will properties), 0-3 current subscribers (v4/v5, exact / + / # / non-matching filters, QoS 0-2); for each session every end point x end flavour is executed against the full broker stack and the will publications are counted per subscriber between logical barriers (task join, router barrier, sentinel publish), plus a later subscriber for the retain flag and in a third of the cases a second will-less session of the same client id. A case counts as distinct and non-trivial by (client version, will shape, subscriber set, session, end point, end flavour, second session, late subscriber version). S4: see the router half (op-kind sequence that reached a named corner state).",
+            rule: "S6: seeded short sessions (1-3 operations) of a v4/v5 client with or without a will (QoS 0-2, retained or not, MQTT 5 will properties), 0-3 current subscribers (v4/v5, exact / + / # / non-matching filters, QoS 0-2); for each session every end point x end flavour is executed against the full broker stack and the will publications are counted per subscriber between logical barriers (task join, router barrier, sentinel publish), plus a later subscriber for the retain flag and in a third of the cases a second will-less session of the same client id. A case counts as distinct and non-trivial by (client version, will shape, subscriber set, session, end point, end flavour, second session, late subscriber version). S4: see the router half (op-kind sequence that reached a named corner state). End flavours include keep-alive expiry after a whole packet and in the middle of a frame (not closed after ten times the allowed time = violation); the router half also runs against a full broker (refused connects with wills).",
             assumptions: &[
                 "connections are in-memory duplex pipes entered through Server::verif_accept; the per-connection task, RemoteLink, Network, protocol and router thread are the production code",
                 "the will delay is 0 except in the will-delay timing cases; keep-alive expiry uses a real 1 s keep-alive",
